@@ -522,6 +522,15 @@ func runDist(c Case) vh.Case {
 
 // ------------------------------------------------------------------------------------ bitmap round trip
 
+var defCounter int
+
+// battery lists are repeated at every q/rt op: emit them once per case as a named Definition
+func shareDef(typ, body string) (string, vh.Def) {
+	defCounter++
+	name := fmt.Sprintf("battery_%d", defCounter)
+	return name, vh.Def{Name: name, Type: typ, Body: body}
+}
+
 func outPrefix(p *net.IPNet) string {
 	if p == nil {
 		return "ONone"
@@ -610,8 +619,9 @@ func runBitmap(c Case) vh.Case {
 	if err != nil {
 		panic(err)
 	}
-	qcoq, ask := bitmapBattery(c)
-	defs := []vh.Def{}
+	qbody, ask := bitmapBattery(c)
+	qcoq, qdef := shareDef("list bq", qbody)
+	defs := []vh.Def{qdef}
 	var tr []string
 	tags := map[string]bool{}
 	pfx := func(o Op) *net.IPNet {
@@ -709,7 +719,7 @@ func runEpoch(c Case) vh.Case {
 	for _, x := range qs {
 		names = append(names, x.coq)
 	}
-	qcoq := vh.List(names)
+	qcoq, qdef := shareDef("list eq_", vh.List(names))
 	ask := func(a *allocator.EpochBitmapAllocator) string {
 		var o []string
 		for _, x := range qs {
@@ -765,7 +775,7 @@ func runEpoch(c Case) vh.Case {
 	}
 	tl = append(tl, "origin:"+c.Origin, fmt.Sprintf("pl:%d", c.PL), fmt.Sprintf("grace:%d", c.Grace))
 	sort.Strings(tl)
-	return vh.Case{Coq: fmt.Sprintf("((%s, %d, %d, %d),\n %s)", base.String(), c.PPL, c.PL, c.Grace, vh.List(tr)), Desc: c, Tags: tl}
+	return vh.Case{Coq: fmt.Sprintf("((%s, %d, %d, %d),\n %s)", base.String(), c.PPL, c.PL, c.Grace, vh.List(tr)), Desc: c, Tags: tl, Defs: []vh.Def{qdef}}
 }
 
 // ------------------------------------------------------------------------------------ allocation store round trip
@@ -880,7 +890,7 @@ func runStore(c Case) vh.Case {
 	for _, x := range qs {
 		names = append(names, x.coq)
 	}
-	qcoq := vh.List(names)
+	qcoq, qdef := shareDef("list mq", vh.List(names))
 	ask := func(s *allocator.MemoryAllocationStore) string {
 		var o []string
 		for _, x := range qs {
@@ -929,7 +939,7 @@ func runStore(c Case) vh.Case {
 	}
 	tl = append(tl, "origin:"+c.Origin)
 	sort.Strings(tl)
-	return vh.Case{Coq: vh.List(tr), Desc: c, Tags: tl}
+	return vh.Case{Coq: vh.List(tr), Desc: c, Tags: tl, Defs: []vh.Def{qdef}}
 }
 
 func run(c Case) (string, vh.Case) {
